@@ -169,6 +169,40 @@ class AddDelegationsRejects(Contract):
     ensures = {'deleg.reject_duplicate_id_and_mixed_type': lambda pre, post: AddDelegationsRejects._c(pre, post)}
 
 
+class DecodeTwiceIndependent(Contract):
+    """history: the same text is decoded, the decoded container is edited (an entry removed), and the text is decoded again:
+    the second decoding gives all the delegations of the text -- decoded values do not share state"""
+    target = T + 'Delegations.from_json'
+    extra_targets = (T + 'Delegations.remove_by_id',)
+    props = ('C12',)
+    bounded = BOUND + '; one edit between two decodings'
+    max_paths = 20000
+    cost = 20
+
+    def inputs(self, g):
+        return [mk_delegations(g, g.pick(list(DelegationType), 'type'))], {}
+
+    def body(self, h, ds):
+        s = h.call(Delegations.to_json, ds)
+        t = ds.d.e['type'][1] if isinstance(ds, PObj) else ds.type
+        first = h.call(Delegations.from_json, json_str=s, atype=t)
+        k = keys(fld(first, 'delegations'))
+        h.call(Delegations.remove_by_id, first, k[0])
+        second = h.call(Delegations.from_json, json_str=s, atype=t)
+        return (len(k), len(keys(fld(first, 'delegations'))), second)
+
+    @staticmethod
+    def _c(pre, post):
+        if not returned(post):
+            return False
+        n, n_first, second = post.result
+        d0, d1 = fld(pre.args[0], 'delegations'), fld(second, 'delegations')
+        return And(n_first == n - 1, len(keys(d1)) == len(keys(d0)),
+                   *[Or(*[And(eq(a, b), delegation_same(fld(d0, a), fld(d1, b))) for b in keys(d1)]) for a in keys(d0)])
+
+    ensures = {'decode.twice_gives_independent_values': lambda pre, post: DecodeTwiceIndependent._c(pre, post)}
+
+
 class AddTwoDelegationsInOneCall(Contract):
     """add_delegations(m1, m2): the two members are judged one after the other -- a duplicate id (against the container or
     between the two arguments) and a member of the other type are rejected; every member stored is one of the arguments"""
@@ -393,4 +427,4 @@ class PoolDefinedOnce(Contract):
     ensures = {'pools.second_definition_rejected': lambda pre, post: PoolDefinedOnce._c(pre, post)}
 
 
-CONTRACTS = [DelegationsRoundTrip, SetDetailsRejects, AddDelegationsRejects, AddTwoDelegationsInOneCall, PoolsRegroup, PoolsRegroupThree, PoolDefinedOnce]
+CONTRACTS = [DelegationsRoundTrip, SetDetailsRejects, AddDelegationsRejects, DecodeTwiceIndependent, AddTwoDelegationsInOneCall, PoolsRegroup, PoolsRegroupThree, PoolDefinedOnce]
